@@ -83,6 +83,7 @@ class VC:
         self.assumed = set()  # names of assumed contracts (trusted base) touched
         self._seq = 0
         self.facts = []  # solver facts of the current path (pyvc.symcp.SolveFact)
+        self.hull_facts = []  # qhull membership facts of the current path (pyvc.symsci.HullFact)
         self.hints = {}
         self._failures = 0
         self._cand_n = 0
@@ -635,6 +636,7 @@ class VC:
 
         def body():
             self.facts = []
+            self.hull_facts = []
             self.hints = {}
             try:
                 return fn(self, self.cfg)
